@@ -24,7 +24,7 @@ func init() {
 	register("C08", "exploration", runC08, replayC08)
 }
 
-var c08Paths = []string{"a.b/x", "c.d/x", "e.f/x", "g/y", "h/y", "fmt", "math/rand", "crypto/rand", "os", "k/type", "n/any", "C", "r/d", "s/d", "my/local", "t/init", "u/pk_x", "github.com/a/b/vendor/github.com/pkg/errors", "v.w/strs", "w.x/slash/", "w.x/slash"}
+var c08Paths = []string{"a.b/x", "c.d/x", "e.f/x", "g/y", "h/y", "fmt", "math/rand", "crypto/rand", "os", "k/type", "n/any", "C", "r/d", "s/d", "my/local", "t/init", "u/pk_x", "github.com/a/b/vendor/github.com/pkg/errors", "v.w/strs", "w.x/slash/", "w.x/slash", "9fans.net/go/acme", "B612.example/font"}
 var c08Aliases = []string{"x", "y", "zz", "rand", "d", ".", "x1", "fmt", "pk_x", "y1"}
 
 type hEvent struct {
